@@ -655,6 +655,49 @@ def make_sweep_inputs(ex):
     shutil.copy(os.path.join(d, "poly_swfe.txt"), os.path.join(d, "poly_swfe.v2"))
 
 
+# ---- crop parameter overrides (CropFile=... c_<KEY>[_stage[_part]]=v) AT and next to their bounds (C11): a value the override
+# check rejects is a run error of that line (first / last in a mixed batch); a value it accepts must run
+_OVB = "project=ex1 WeatherFolder=historical soilId=075 fcode=109_120 plotNr=10001 Altitude=73 Latitude=52.6732 poligonID=29872 EndDate=12311982 CropFile=PARAM.SM "
+_OV_REJ = ["c_TSUM_1=0", "c_TSUM_2=0", "c_TSUM_4=0", "c_KC_1=0", "c_KC_3=0", "c_MAXAMAX=0", "c_MAXAMAX=100.5", "c_MINTMP=-30", "c_MINTMP=50",
+           "c_WUMAXPF=0", "c_WUMAXPF=20.5", "c_VELOC=0", "c_VELOC=1.01", "c_YIFAK=-0.01", "c_YIFAK=1.01", "c_TSUM_2=10001", "c_TSUM_1=-5",
+           "c_BAS_1=-10.5", "c_BAS_2=40.5", "c_KC_2=-1", "c_LUKRIT_1=1.01", "c_DRYSWELL_2=-0.01", "c_PRO_1_1=1.01", "c_DEAD_2_1=-0.01",
+           "c_INITCONCNBIOM=100.5"]
+_OV_PARSE = ["c_TSUM_0=100", "c_TSUM_99=100", "c_NOSUCHKEY=1", "c_PRO_1_99=0.5"]
+_OV_ACC = ["c_MAXAMAX=100", "c_WUMAXPF=20", "c_VELOC=1", "c_YIFAK=0", "c_YIFAK=1", "c_TSUM_2=10000", "c_TSUM_1=0.5", "c_BAS_1=-10", "c_BAS_2=40",
+           "c_KC_1=0.01", "c_LUKRIT_1=0", "c_LUKRIT_1=1", "c_DRYSWELL_2=0", "c_DRYSWELL_2=1", "c_MINTMP=-29.9", "c_MINTMP=49.9", "c_INITCONCNBIOM=0"]
+# a value outside its range is NOT a run error by design (crop_calibration.go:68-80): the message goes to the log channel and ALL
+# overrides of the line are ignored -> the line must run and give the bytes of the line without the c_ keys
+OVR_IGNORED = {"ovb-ignored:" + x: _OVB + x for x in _OV_REJ}
+OVR_ACCEPTED = {"ovb:" + x: _OVB + x for x in _OV_ACC}
+OVR_ACCEPTED["ovb:none"] = _OVB.strip()
+OVR_PARSE_ERRORS = {"crop-override-malformed:" + x: _OVB + x for x in _OV_PARSE}     # these ARE run errors (ParseCropOverwrites)
+
+# ---- automatic sowing on the first days of a year (C11): AutoSowingHarvest on, a crop still waiting for its sowing day on
+# day-of-year == the sliding-mean window: (a) the rotation of the field ends years before EndDate (the placeholder crop keeps
+# searching), (b) a crop whose earliest sowing date is 1 January
+AUTOSOW = {"autosow-rotation-ends-early": "project=vrot WeatherFolder=historical soilId=075 fcode=109_120 plotNr=10002 Altitude=73 Latitude=52.6732 poligonID=29873 EndDate=12311985",
+           "autosow-window-from-1-jan": "project=vjan WeatherFolder=historical soilId=075 fcode=109_120 plotNr=10001 Altitude=73 Latitude=52.6732 poligonID=29872 EndDate=12311983"}
+
+
+def make_autosow_inputs(ex):
+    d = _clone(ex, "ex3", "vrot")
+    p = os.path.join(d, "crop_vrot.txt")
+    L = []
+    for l in open(p).read().split("\n"):
+        f = l.split()
+        if len(f) > 2 and f[0] == "SMSOY2" and len(f[2]) == 8 and f[2][4:] > "1982":
+            continue
+        L.append(l)
+    open(p, "w").write("\n".join(L))
+    d = _clone(ex, "ex3", "vjan")
+    p = os.path.join(d, "automan.txt")
+    L = open(p).read().split("\n")
+    for i, l in enumerate(L):
+        if l.startswith("SOY "):
+            L[i] = l.replace("SOY 0315", "SOY 0101", 1)
+    open(p, "w").write("\n".join(L))
+
+
 class Exec:
     """one execution of the batch binary"""
     def __init__(self):
